@@ -36,7 +36,7 @@ CONSTANTS
   PskIds = {q(pskids)}
   PskValues = {q(pskvals)}
   JitterChoices = {{99999, 0, 1, 2, 1000}}
-  Deviations = {{"F12", "F14"}}
+  Deviations = {{"F12", "F14", "F24"}}
   MaxApps = 400
   MaxSucc = 60
   CapX = {q(capx)}
